@@ -3,6 +3,8 @@ mod c01;
 mod c0203;
 mod c04;
 mod c0506;
+mod c08;
+mod refdb;
 mod c13;
 mod c19;
 mod c32;
@@ -21,6 +23,7 @@ fn main() {
         "C04" => c04::run(&args),
         "C05" => c0506::run_c05(&args),
         "C06" => c0506::run_c06(&args),
+        "C08" | "C09" | "C10" | "C11" | "C18" => c08::run(&args),
         "C13" => c13::run(&args),
         "C19" => c19::run(&args),
         "C32" => c32::run(&args),
